@@ -148,6 +148,9 @@ func scribbleInts(xs ...*big.Int) {
 // historyOps builds the operations of a property. salt selects the identities (keys, seeds, sizes) the operations use:
 // salt 0 is the canonical set; every other salt gives identities this process has never used before, so that
 // "first use wins" caches are cold when the history starts.
+// historyCheapOps: properties whose operations are cheap enough for depth 3 with more than 12 operations.
+var historyCheapOps = map[string]bool{"C17": true, "C14": true, "C04": true, "C05": true}
+
 var historyOps = map[string]func(c *core.Ctx, salt int) []hOp{}
 
 // historyPass enumerates all histories of length <= depth over the property's operations.
@@ -161,7 +164,7 @@ func historyPass(c *core.Ctx, id string) {
 		return
 	}
 	depth := 3
-	if len(ops) > 12 {
+	if len(ops) > 12 && !historyCheapOps[id] {
 		depth = 2
 	}
 	if c.Thorough() && len(ops) <= 10 {
